@@ -84,13 +84,13 @@ SCALE_LEN_PATTERNS = ((1,), (2,), (1, 2, 3), (3, 1), (4, 2))
 SCALE_GAP_PATTERNS = ((1,), (0, 1), (2, 0, 1), (5,), (3, 3, 0))
 
 
-def scale_layouts(tier="quick", offset=0, ks=None):
+def scale_layouts(tier="quick", offset=0, ks=None, npat=None):
     """the scale family: yields (k, blocks) with blocks ascending, non-empty, gaps >= 0 (adjacent allowed)"""
     seen = set()
     for k in ks or SCALE_K[tier]:
-        npat = 3 if tier == "quick" else 5
-        for lp in SCALE_LEN_PATTERNS[:npat]:
-            for gp in SCALE_GAP_PATTERNS[:npat]:
+        np_ = npat or (3 if tier == "quick" else 5)
+        for lp in SCALE_LEN_PATTERNS[:np_]:
+            for gp in SCALE_GAP_PATTERNS[:np_]:
                 for ph in range(max(len(lp), len(gp))):
                     pos = offset
                     bl = []
